@@ -130,6 +130,9 @@ func (ip *GenericBlockIndexProvider) findIndexContaining(ctx context.Context, bl
 		var err error
 
 		base := lowBoundary(blockNum, size)
+		if base+size < blockNum+bundleSize {
+			continue // never use an index file that does not cover the whole requested range
+		}
 		filename := toIndexFilename(size, base, ip.indexShortname)
 
 		r, err = ip.store.OpenObject(ctx, filename)
